@@ -416,7 +416,7 @@ type vfResult struct {
 
 type vfStats struct {
 	scripts, steps, iterReads, storeReads, ackChecks, slowCommits, peerCommits, failedOpens, partialFrames,
-	dataOnly, freeFrames, remoteOnly, mixedWrites, lastEndNotMax, commits, unauthorized, hangs, settles, traces, tainted atomic.Int64
+	dataOnly, freeFrames, remoteOnly, mixedWrites, lastEndNotMax, commits, unauthorized, hangs, settles, traces, tainted, setupRetries atomic.Int64
 }
 
 var vfDebug = os.Getenv("VERIF_DEBUG") == "1"
@@ -547,7 +547,7 @@ func (r *vfRunner) createChannels(ctx context.Context) error {
 			all = append(all, k)
 		}
 	}
-	dl := time.Now().Add(30 * time.Second)
+	dl := time.Now().Add(15 * time.Second)
 	for _, n := range r.cl.nodes {
 		for {
 			var chs []channel.Channel
@@ -1136,14 +1136,31 @@ func vfReplay(idx int, hist []vfStep, c vfConc, maxT int, full bool, stats *vfSt
 			r.cl.close()
 		}
 	}()
-	cl, err := vfProvision(ctx, r.setup.Nodes, rec)
-	r.cl = cl
-	if err != nil {
-		res.R, res.Note = "inconclusive", "provision: "+err.Error()
-		return
+	// Channel metadata reaches the other nodes through aspen gossip, which can strand an
+	// operation (C06's subject): a cluster whose metadata does not converge is discarded and
+	// the script starts again on a fresh one. Never a verdict.
+	var serr error
+	for attempt := 0; attempt < 4; attempt++ {
+		r.keys, r.names, r.stored = map[string]channel.Key{}, map[channel.Key]string{}, nil
+		rec.mu.Lock()
+		rec.events = nil
+		rec.mu.Unlock()
+		cl, err := vfProvision(ctx, r.setup.Nodes, rec)
+		r.cl = cl
+		if err == nil {
+			err = r.createChannels(ctx)
+		}
+		if serr = err; err == nil {
+			break
+		}
+		stats.setupRetries.Add(1)
+		if cl != nil {
+			cl.close()
+		}
+		r.cl = nil
 	}
-	if err := r.createChannels(ctx); err != nil {
-		res.R, res.Note = "inconclusive", "create channels: "+err.Error()
+	if serr != nil {
+		res.R, res.Note = "inconclusive", "provision / create channels: "+serr.Error()
 		return
 	}
 	rec.add(vfEvent{Ev: "setup", N: r.setup.Nodes})
@@ -1256,7 +1273,7 @@ func vfStatsMap(stats *vfStats, extra map[string]any) map[string]any {
 		"failed_opens": stats.failedOpens.Load(), "partial_frames": stats.partialFrames.Load(), "dataonly_writes": stats.dataOnly.Load(),
 		"free_channel_frames": stats.freeFrames.Load(), "remote_only_writes": stats.remoteOnly.Load(), "mixed_local_remote_writes": stats.mixedWrites.Load(),
 		"commit_end_not_max": stats.lastEndNotMax.Load(), "unauthorized": stats.unauthorized.Load(), "hangs": stats.hangs.Load(),
-		"settles": stats.settles.Load(), "traces": stats.traces.Load(), "tainted_scripts": stats.tainted.Load()}
+		"settles": stats.settles.Load(), "traces": stats.traces.Load(), "tainted_scripts": stats.tainted.Load(), "setup_retries": stats.setupRetries.Load()}
 	for k, v := range extra {
 		m[k] = v
 	}
